@@ -27,6 +27,11 @@ package props
 //     XModel.Select, which this backing only imitates (needs backing (ii), see c10RealBacking).
 //   - values never equal the delete marker "\x00" (in-band marker, a Put of it IS a delete).
 //   - Transfer is always from the initiator, amount >= 0, non-empty receiver (bridge.SyscallService.Transfer).
+//   - one scan is consumed and closed before the next call.
+// Deliberately not asserted (the statement does not claim it): which of ErrNotFound / ErrHasDel a
+// read of an absent key answers (only "no value"; the replay must answer the same one), the outcome
+// of a Transfer (only that the replay reproduces it), absence of keys inside a scanned range
+// (no phantom protection), that look-ahead keys are NOT in the read set.
 
 import (
 	"bytes"
